@@ -105,6 +105,17 @@ static int wavlike_fmt_h (SF_PRIVATE *psf)
 	return wavlike_read_fmt_chunk (psf, fmtsize_nd) ;
 }
 #endif
+#ifdef WRAP_FN
+/* chunk parsers that take the chunk size found in the file */
+static WAVLIKE_PRIVATE wav_priv2 ;
+static int wrap_chunk_parser (SF_PRIVATE *psf)
+{	WRAP_ARG_T size_nd ;
+	psf->container_data = &wav_priv2 ;
+	int r = WRAP_FN (psf, size_nd) ;
+	free (psf->broadcast_16k) ; free (psf->cart_16k) ; free (psf->peak_info) ;
+	return r ;
+}
+#endif
 #ifdef AIFF_WRAPPER
 static AIFF_PRIVATE aiff_priv ;
 static int aiff_read_header_h (SF_PRIVATE *psf)
@@ -119,6 +130,9 @@ void h_parser (void)
 {	sf_count_t fl, fo ; int mode_nd ;
 	P.header.ptr = hbuf ; P.header.len = 256 ;
 	P.filelength = fl ; P.fileoffset = fo ; P.file.mode = SFM_READ ;
+#ifdef CHANNELS
+	P.sf.channels = CHANNELS ;
+#endif
 	__CPROVER_assume (fl >= 0 && fo >= 0) ;
 	int r = READ_FN (&P) ;
 	REACH (r == 0, "some byte string is accepted") ;
